@@ -48,7 +48,9 @@ def init(repo: str, so_path: str | None, config: dict) -> None:
     """Executed once per worker process, before anything imports pendulum."""
     assert "pendulum" not in sys.modules, "pendulum imported before the seams were pinned"
     os.environ["PENDULUM_EXTENSIONS"] = "1" if config.get("ext", 1) else "0"
-    os.environ["TZ"] = "UTC"
+    os.environ["TZ"] = config.get("TZ", "UTC")      # the machine's zone is a seam too: UTC unless a shard asks otherwise
+    import time as _time
+    _time.tzset()
     tzp = SYS_TZPATH if config.get("tz", "sys") == "sys" else ""
     os.environ["PYTHONTZPATH"] = tzp
     import zoneinfo
@@ -104,6 +106,26 @@ def init(repo: str, so_path: str | None, config: dict) -> None:
     CTX.update(repo=repo, so=so_path, config=dict(config), tzpath=tzp)
     if keep:
         CTX["cov"] = keep
+
+
+def fresh_call(modname: str, fn: str, arg, extra_config: dict, timeout: float = 600.0):
+    """Run pendmc.props.<modname>.<fn>(arg) in a NEW interpreter whose configuration is the current one plus
+    `extra_config` (e.g. {'TZ': 'Europe/Paris'}: settings the library reads once per process, such as the machine's
+    zone from the environment).  Returns the function's JSON-able result."""
+    import json
+    import subprocess
+    cfg = dict(CTX["config"], **extra_config)
+    verif = os.path.dirname(os.path.dirname(os.path.abspath(__file__)))
+    code = ("import sys, json; sys.path.insert(0, %r); from pendmc import worker; "
+            "worker.init(%r, %r, json.loads(%r)); import importlib; "
+            "m = importlib.import_module('pendmc.props.' + %r); "
+            "r = getattr(m, %r)(json.loads(sys.stdin.read())); sys.stdout.write('\\n@@RESULT@@' + json.dumps(r))"
+            % (verif, CTX["repo"], CTX["so"], json.dumps(cfg), modname, fn))
+    env = dict(os.environ, PYTHONHASHSEED="0")
+    p = subprocess.run([sys.executable, "-c", code], input=json.dumps(arg), capture_output=True, text=True, timeout=timeout, env=env)
+    if p.returncode != 0 or "@@RESULT@@" not in p.stdout:
+        raise RuntimeError(f"fresh process failed ({p.returncode}): {p.stderr[-800:]}")
+    return json.loads(p.stdout.split("@@RESULT@@", 1)[1])
 
 
 def is_control(exc: BaseException) -> bool:
